@@ -701,7 +701,7 @@ var hostile = []string{
 	"", "~", "[]", "{}", "steps: ~", "steps: []", "steps: 5", "steps: {a: b}", "- wait", "- 5", "- [a]", "- ~", "- {}",
 	"steps:\n  - command: x\n    foo: .nan\n", "steps:\n  - command: x\n    foo: .inf\n",
 	"a: &a\n  b: *a\n", "a: &a [*a]\n", "a: &a {<<: *a, x: 1}\nsteps: []\n", "? [a, b]\n: c\n", "? {a: b}\n: c\n",
-	"steps:\n  - type: 5\n", "steps:\n  - type: [a]\n", "steps:\n  - type: ~\n    command: x\n", "steps:\n  - {type: command}\n", "steps:\n  - {type: group}\n",
+	"steps:\n  - type: 5\n", "steps:\n  - type: [a]\n", "steps:\n  - type: []\n    command: x\n", "steps:\n  - type: [5]\n    command: x\n", "steps:\n  - type: [[a]]\n", "steps:\n  - type: {a: 1}\n    wait: ~\n", "steps:\n  - type: true\n", "steps:\n  - type: 1.5\n    command: x\n", "steps:\n  - type: 2001-01-01\n", "steps:\n  - type: [~]\n", "steps:\n  - type: ~\n    command: x\n", "steps:\n  - {type: command}\n", "steps:\n  - {type: group}\n",
 	"steps:\n  - group: ~\n    steps: oops\n", "steps:\n  - group: g\n    steps:\n      - mystery\n", "steps:\n  - group: g\n    steps:\n      - group: h\n        steps:\n          - {future: 1}\n",
 	"steps:\n  - command: [a, [b]]\n", "steps:\n  - command: {a: b}\n", "steps:\n  - commands: x\n    command: [a]\n",
 	"steps:\n  - command: x\n    env: [a]\n", "steps:\n  - command: x\n    env: {D: 2001-01-01}\n", "steps:\n  - command: x\n    env: {B: !!binary aGVsbG8=}\n",
